@@ -130,16 +130,19 @@ func (q *Queue) Add(elem *queue.Elem) (err error) {
 			return
 		}
 		for e := q.current; e != nil; e = e.Next() {
+			// After Init, the inflight messages (PUBLISH or PUBREL) are behind the cursor until ReadInflight has returned them.
+			if e.Value.(*queue.Elem).ID() != 0 {
+				continue
+			}
 			pub := e.Value.(*queue.Elem).MessageWithID.(*queue.Publish)
 			// drop expired non-inflight message
-			if pub.ID() == 0 &&
-				queue.ElemExpiry(now, e.Value.(*queue.Elem)) {
+			if queue.ElemExpiry(now, e.Value.(*queue.Elem)) {
 				dropElem = e
 				dropErr = queue.ErrDropExpired
 				return
 			}
 			// drop qos0 message in the queue
-			if pub.ID() == 0 && pub.QoS == packets.Qos0 && dropElem == nil {
+			if pub.QoS == packets.Qos0 && dropElem == nil {
 				dropElem = e
 			}
 		}
